@@ -184,11 +184,24 @@ public:
         return v;
     }
 
+    // enumerators declared inside templates keep a zero APSInt: evaluate the written initialiser instead
+    bool enumValue(const EnumConstantDecl *ec, int64_t &out) {
+        const Expr *ie = ec->getInitExpr();
+        const DeclContext *dc = ec->getDeclContext();
+        bool dependent = dc && dc->isDependentContext();
+        if (!dependent) { out = ec->getInitVal().getExtValue(); return true; }
+        if (ie && !ie->isValueDependent() && !ie->isTypeDependent()) {
+            Expr::EvalResult r;
+            if (ie->EvaluateAsInt(r, Ctx, Expr::SE_NoSideEffects)) { out = r.Val.getInt().getExtValue(); return true; }
+        }
+        return false;
+    }
+
     void declRefInfo(json::Object &o, const ValueDecl *d) {
         o["n"] = nameOf(d);
         o["q"] = qnameOf(d);
         o["dk"] = d->getDeclKindName();
-        if (auto *ec = dyn_cast<EnumConstantDecl>(d)) o["v"] = ec->getInitVal().getExtValue();
+        if (auto *ec = dyn_cast<EnumConstantDecl>(d)) { int64_t ev; if (enumValue(ec, ev)) o["v"] = ev; }
         if (auto *vd = dyn_cast<VarDecl>(d)) {
             if (vd->isLocalVarDeclOrParm()) o["local"] = 1;
         }
@@ -606,7 +619,7 @@ public:
         json::Array es;
         for (auto *e : ed->enumerators()) {
             json::Object je; je["n"] = nameOf(e);
-            if (!e->getInitExpr() || !e->getInitExpr()->isValueDependent()) je["v"] = e->getInitVal().getExtValue();
+            { int64_t ev; if (enumValue(e, ev)) je["v"] = ev; }
             es.push_back(std::move(je));
         }
         o["enumerators"] = std::move(es);
